@@ -73,7 +73,7 @@ def run(tier, seed, ev):
         ev.set("impl_cases_2byte", j["cases"])
         if rc:
             bad.append(("pairs2", j))
-    rc, j = _drv(drv, "long", tabf, seed, 400 if tier == "quick" else 4000, 1 << 20 if tier == "thorough" else 1 << 16)
+    rc, j = _drv(drv, "long", tabf, seed, 400 if tier == "quick" else 4000, 1 << 20 if tier == "thorough" else (1 << 17) + 8)
     ev.set("impl_long_buffers", j["cases"])
     if rc:
         bad.append(("long", j))
